@@ -132,6 +132,60 @@ impl<T> Streaming<T> {
 }
 '''
 
+ASYNC = r'''
+#[allow(unused_macros)]
+macro_rules! pin { ($e:expr) => { $e } }
+use core::future::Future;
+use vstd::future::FutureAdditionalSpecFns;
+// ---- what the dispatcher talks to (assumed interfaces) ----
+// crate::codec::Codec: encoder() / decoder() hand out the codec's two halves (A-codec-05)
+pub trait Codec {
+    type Encode; type Decode; type Encoder; type Decoder;
+    spec fn enc_id(&self) -> int;
+    spec fn dec_id(&self) -> int;
+    fn encoder(&mut self) -> (r: Self::Encoder) ensures erased_encoder(r) == old(self).enc_id(), final(self).dec_id() == old(self).dec_id(), final(self).enc_id() == old(self).enc_id();
+    fn decoder(&mut self) -> (r: Self::Decoder) ensures erased_decoder(r) == old(self).dec_id(), final(self).dec_id() == old(self).dec_id(), final(self).enc_id() == old(self).enc_id();
+}
+pub uninterp spec fn erased_encoder<E>(e: E) -> int;
+// crate::codec::EncodeBody::new_client (PROVED in unit encode, clause B1): a client-role body over the given encoder and
+// source with the given compression and limit; seen here through what it was built from
+pub struct EncodeBody<E, S> { pub encoder: E, pub source: S, pub compression: Option<CompressionEncoding>, pub max_message_size: Option<usize>, pub client: bool }
+impl<E, S> EncodeBody<E, S> {
+    #[verifier::external_body]
+    pub fn new_client(encoder: E, source: S, compression_encoding: Option<CompressionEncoding>, max_message_size: Option<usize>) -> (r: Self)
+        ensures r.encoder == encoder, r.source == source, r.compression == compression_encoding, r.max_message_size == max_message_size, r.client
+    { unimplemented!() }
+}
+// tokio_stream: `s.map(Ok)` wraps every item in Ok; `once(m)` is the one-item stream (A-stream-03)
+pub struct OkStream<S> { pub inner: S }
+pub struct Once<M> { pub item: M }
+pub trait Stream { type Item; }
+pub trait StreamMapOk: Stream + Sized { fn map<F: FnOnce(Self::Item) -> Result<Self::Item, Status>>(self, f: F) -> (r: OkStream<Self>) ensures r.inner == self; }
+impl<S: Stream> StreamMapOk for S { #[verifier::external_body] fn map<F: FnOnce(Self::Item) -> Result<Self::Item, Status>>(self, f: F) -> (r: OkStream<Self>) { unimplemented!() } }
+impl<M> Stream for Once<M> { type Item = M; }
+pub mod tokio_stream {
+    use super::*;
+    pub fn once<M>(m: M) -> (r: Once<M>) ensures r.item == m { Once { item: m } }
+}
+// crate::client::GrpcService: the transport.  Ghost log of the requests it was handed; `answer()` is what the most recent
+// call's future resolves to (A-tower-06)
+pub trait GrpcService<ReqBody> {
+    type ResponseBody;
+    type Error;
+    type Future: Future<Output = Result<http::Response<Self::ResponseBody>, Self::Error>>;
+    spec fn log(&self) -> Seq<http::Request<ReqBody>>;
+    spec fn answer(&self) -> Result<http::Response<Self::ResponseBody>, Self::Error>;
+    fn call(&mut self, request: http::Request<ReqBody>) -> (f: Self::Future)
+        ensures final(self).log() == old(self).log().push(request), f@ == final(self).answer();
+}
+impl Status {
+    // A-tonic-status-02: Status::from_error_generic turns a transport error into a status (source-chain inspection is not modelled)
+    pub uninterp spec fn generic<E>(e: E) -> Status;
+    #[verifier::external_body]
+    pub fn from_error_generic<E>(e: E) -> (r: Status) ensures r == Status::generic(e) { unimplemented!() }
+}
+'''
+
 CRSPEC = r'''
 pub open spec fn encoding_refused(h: HMap, accept: EnabledCompressionEncodings) -> bool {
     wanted(h) is Some && wanted(h) != Some(ascii_bytes("identity"@)) && (forall|e: CompressionEncoding| !(wanted(h) == Some(ascii_bytes(enc_name(e))) && accept.enabled(e)))
@@ -207,6 +261,10 @@ def build():
     u.close('}')
 
     u.raw(BODY)
+    u._emit('impl MetadataMap {'); u._open_header = 'impl MetadataMap {'
+    u.fn('tonic/src/metadata/map.rs', 'merge', within='impl MetadataMap', props=['C02', 'C08'],
+         ensures=[Clause('M1_union_other_wins', 'final(self).headers@ == old(self).headers@.union_prefer_right(other.headers@)')])
+    u.close('}')
     u.item(G, 'struct', 'GrpcConfig')
     u.raw(PREP)
     u._emit('impl GrpcConfig {'); u._open_header = 'impl GrpcConfig {'
@@ -267,5 +325,116 @@ def build():
                                     'expect_additional_trailers ==> o.direction == Direction::Response(status_code) && o.encoding == encoding && o.max_message_size == self.config.max_decoding_message_size',
                                     '!expect_additional_trailers ==> o.direction == Direction::EmptyResponse'])},
          ensures=[Clause('CR_response_head_is_interpreted_as_the_protocol_says', 'response_outcome(self.config, decoder, response, r)', ['C02', 'C05'])])
+
+    u.close('}')
+    u.raw(ASYNC)
+    u.raw('''
+// the request the transport is handed for a call with this user request
+pub open spec fn sent_request<S, C: Codec>(q: http::Request<Body>, cfg: GrpcConfig, request: Request<S>, path: PathAndQuery, codec: C) -> bool {
+    &&& q.method == http::Method::POST && q.version == http::Version::HTTP_2 && q.extensions == request.extensions
+    &&& prepared_headers(q.headers@, request.metadata.headers@, cfg.send_compression_encodings, cfg.accept_compression_encodings)
+    &&& exists|b: EncodeBody<C::Encoder, OkStream<S>>| q.body.of@ == #[trigger] erased(b) && erased_encoder(b.encoder) == codec.enc_id() && b.source.inner == request.message
+            && b.compression == cfg.send_compression_encodings && b.max_message_size == cfg.max_encoding_message_size && b.client
+}
+''')
+    u.raw('''
+// outcome of the exchange with the transport: its error becomes the call's error; a response head is interpreted by create_response
+pub open spec fn call_outcome<M2, C: Codec, RB, E>(cfg: GrpcConfig, codec: C, answer: Result<http::Response<RB>, E>, r: Result<Response<Streaming<M2>>, Status>) -> bool {
+    match answer {
+        Err(e) => r == Err::<Response<Streaming<M2>>, Status>(Status::generic(e)),
+        Ok(resp) => exists|d: C::Decoder| erased_decoder(d) == codec.dec_id() && #[trigger] response_outcome(cfg, d, resp, r),
+    }
+}
+// ---- the response stream as the dispatcher uses it (A-tonic-decode-02): try_next() drives Streaming::poll_next to its next
+// item, trailers() drains the stream and hands out the trailing metadata; both are functions of the stream state, which
+// (conceptually) contains everything the transport will still deliver.  Their per-poll behaviour is proved in unit decode.
+// A-core-24: core::future::Ready<T> as an opaque future type
+#[verifier::external_type_specification]
+#[verifier::external_body]
+#[verifier::reject_recursive_types(T)]
+pub struct ExReady<T>(core::future::Ready<T>);
+impl<T> Streaming<T> {
+    pub uninterp spec fn nxt(self) -> (Result<Option<T>, Status>, Streaming<T>);
+    pub uninterp spec fn trl(self) -> (Result<Option<MetadataMap>, Status>, Streaming<T>);
+    #[verifier::external_body]
+    pub fn try_next(&mut self) -> (f: core::future::Ready<Result<Option<T>, Status>>)
+        ensures f@ == old(self).nxt().0, *final(self) == old(self).nxt().1
+    { unimplemented!() }
+    #[verifier::external_body]
+    pub fn trailers(&mut self) -> (f: core::future::Ready<Result<Option<MetadataMap>, Status>>)
+        ensures f@ == old(self).trl().0, *final(self) == old(self).trl().1
+    { unimplemented!() }
+}
+// what a single-response call makes of the response stream (C02: "success only if the handler succeeded, otherwise an error
+// carrying the handler's code, message and details and every metadata entry the handler attached")
+pub open spec fn unary_outcome<M2>(r0: Result<Response<Streaming<M2>>, Status>, r: Result<Response<M2>, Status>) -> bool {
+    match r0 {
+        Err(e) => r == Err::<Response<M2>, Status>(e),
+        Ok(resp0) => {
+            let (first, s1) = resp0.message.nxt();
+            match first {
+                // the stream failed before the first message: that status, with the initial metadata merged into its metadata
+                Err(st) => r matches Err(st2) && st2.code == st.code && st2.message == st.message && st2.details == st.details
+                    && st2.metadata.headers@ == st.metadata.headers@.union_prefer_right(resp0.metadata.headers@),
+                Ok(None) => r matches Err(st2) && st2.code == Code::Internal,
+                Ok(Some(m)) => match s1.trl().0 {
+                    Err(st) => r == Err::<Response<M2>, Status>(st),
+                    Ok(None) => r matches Ok(x) && x.message == m && x.metadata.headers@ == resp0.metadata.headers@ && x.extensions == resp0.extensions,
+                    Ok(Some(t)) => r matches Ok(x) && x.message == m && x.metadata.headers@ == resp0.metadata.headers@.union_prefer_right(t.headers@) && x.extensions == resp0.extensions,
+                },
+            }
+        },
+    }
+}
+''')
+    u._emit('impl<T> Grpc<T> {'); u._open_header = 'impl<T> Grpc<T> {'
+    AW = [lambda t: t.sub_code('R12', r'\bwhere\s+T: GrpcService<Body>[^{]*', 'where T: GrpcService<Body>, C: Codec<Encode = M1, Decode = M2>, S: Stream<Item = M1>')]
+    def hoist_encoder(t):
+        # R20: `codec.encoder()` is evaluated inside a closure that Request::map calls exactly once, at once (clause M1 of the
+        # real Request::map); it is hoisted in front of the statement so the closure captures no mutable reference
+        a = t.find_code('codec.encoder()')
+        st = t.find_code('let request = request')
+        if a < 0 or st < 0 or st > a:
+            t.lost.append('R20 anchor codec.encoder() inside `let request = request.map(..)`')
+            return
+        t.edit('R20', a, a + len('codec.encoder()'), 'verif_encoder', 'hoisted out of the immediately-invoked closure')
+        ls = t.t.rfind('\n', 0, st) + 1
+        t.edit('R20', ls, ls, '        let verif_encoder = codec.encoder();\n', 'hoisted out of the immediately-invoked closure')
+    u.fn(G, 'streaming', within='impl<T> Grpc<T>', sig_edits=AW, body_edits=[hoist_encoder],
+         closures={0: dict(params='s: S', ret='(o: EncodeBody<C::Encoder, OkStream<S>>)',
+                           ensures=['o.encoder == verif_encoder && o.source.inner == s && o.compression == self.config.send_compression_encodings && o.max_message_size == self.config.max_encoding_message_size && o.client'])},
+         ensures=[
+             Clause('S1_the_transport_is_called_exactly_once_with_the_prepared_grpc_request',
+                    'final(self).inner.log().len() == old(self).inner.log().len() + 1 && final(self).inner.log().drop_last() == old(self).inner.log() && sent_request(final(self).inner.log().last(), old(self).config, request, path, codec)'),
+             Clause('S2_transport_error_becomes_the_call_error_and_a_response_head_is_interpreted_as_the_protocol_says',
+                    'call_outcome(old(self).config, codec, final(self).inner.answer(), r)'),
+             Clause('S4_configuration_untouched', 'final(self).config == old(self).config'),
+         ])
+    ONE = 'final(self).inner.log().len() == old(self).inner.log().len() + 1 && final(self).inner.log().drop_last() == old(self).inner.log()'
+    u.fn(G, 'client_streaming', within='impl<T> Grpc<T>', sig_edits=AW,
+         closures={0: dict(params='mut status: Status', ret='(o: Status)',
+                           ensures=['o.code == status.code && o.message == status.message && o.details == status.details && o.metadata.headers@ == status.metadata.headers@.union_prefer_right(parts.headers@)']),
+                   1: dict(params='', ret='(o: Status)', ensures=['o.code == Code::Internal'])},
+         ensures=[
+             Clause('CS1_the_transport_is_called_exactly_once_with_the_prepared_grpc_request', ONE + ' && sent_request(final(self).inner.log().last(), old(self).config, request, path, codec)'),
+             Clause('CS2_first_message_then_trailers_or_the_error_with_all_metadata',
+                    'exists|r0: Result<Response<Streaming<M2>>, Status>| #[trigger] call_outcome(old(self).config, codec, final(self).inner.answer(), r0) && unary_outcome(r0, r)'),
+             Clause('CS3_configuration_untouched', 'final(self).config == old(self).config'),
+         ])
+    AW1 = [lambda t: t.sub_code('R12', r'\bwhere\s+T: GrpcService<Body>[^{]*', 'where T: GrpcService<Body>, C: Codec<Encode = M1, Decode = M2>')]
+    ONCE = 'Request { metadata: request.metadata, message: Once { item: request.message }, extensions: request.extensions }'
+    u.fn(G, 'unary', within='impl<T> Grpc<T>', sig_edits=AW1,
+         closures={0: dict(params='m: M1', ret='(o: Once<M1>)', ensures=['o.item == m'])},
+         ensures=[
+             Clause('U1_one_request_message', ONE + ' && sent_request(final(self).inner.log().last(), old(self).config, ' + ONCE + ', path, codec)'),
+             Clause('U2_outcome_as_for_a_single_response_call',
+                    'exists|r0: Result<Response<Streaming<M2>>, Status>| #[trigger] call_outcome(old(self).config, codec, final(self).inner.answer(), r0) && unary_outcome(r0, r)'),
+         ])
+    u.fn(G, 'server_streaming', within='impl<T> Grpc<T>', sig_edits=AW1,
+         closures={0: dict(params='m: M1', ret='(o: Once<M1>)', ensures=['o.item == m'])},
+         ensures=[
+             Clause('SS1_one_request_message', ONE + ' && sent_request(final(self).inner.log().last(), old(self).config, ' + ONCE + ', path, codec)'),
+             Clause('SS2_outcome_as_for_a_streaming_call', 'call_outcome(old(self).config, codec, final(self).inner.answer(), r)'),
+         ])
     u.close('}')
     return u
